@@ -364,6 +364,89 @@ def run_mbpath(case):
             'tags': {'mbpath': 1}, 'sample': case}
 
 
+# ---- (b3) designed networks: split fibres and a Raman span next to plain ones -----------------------------------------------------
+DESIGNED = {
+    # one 240 km fibre (auto-design splits it into equal spans and inserts amplifiers) and a 170 km one on the way back
+    'split240': lambda: c.build_topology(['A', 'B'], [('A', 'B', [c.fiber(240, con_in=0.25, con_out=0.25)], [c.fiber(170)])]),
+    # an automatic amplifier followed by a Raman span, plain fibres elsewhere; designed and propagated with Raman off
+    'raman_after_amp': lambda: c.build_topology(['A', 'B'], [
+        ('A', 'B', [c.edfa(), tg_raman(80), c.edfa(), c.fiber(60)], [c.fiber(80), c.edfa(), c.fiber(70)])]),
+}
+
+
+def tg_raman(length):
+    from checks import topogen
+    return topogen.raman_fiber(length)
+
+
+def run_designed(case):
+    """after auto-design, with Raman computation off: every plain fibre applies exactly the budget of its own (designed)
+    parameters, latency and CD add up to those of the fibres of the input document"""
+    import numpy as np
+    from gnpy.core.elements import Fiber, RamanFiber
+    viol = []
+    topo = DESIGNED[case['net']]()
+    eq = library()
+    if 'RamanFiber' not in eq:
+        eq['RamanFiber'] = [dict(next(f for f in eq['Fiber'] if f['type_variety'] == 'SSMF'))]
+    # the simulation parameters (Raman computation off) are set once, before the design, and not touched again: the
+    # propagations run with whatever the design left in force
+    net, equipment, _, _ = c.design(topo, eq, sim={'raman_params': {'flag': False}})
+    in_len = {}
+    for e in topo['elements']:
+        if e['type'] in ('Fiber', 'RamanFiber'):
+            in_len[e['uid'].split(':')[0]] = in_len.get(e['uid'].split(':')[0], 0.0) + e['params']['length'] * 1e3
+    transitions = 0
+    traces = 0
+    try:
+        for path in c.all_simple_trx_paths(net):
+            if any(isinstance(e, RamanFiber) for e in path):
+                continue        # a pumped RamanFiber is not propagated with the Raman computation off
+            req = c.make_request(equipment, path[0].uid, path[-1].uid,
+                                 spectrum=[dict(f=f, baud=b, slot=s_) for f, b, s_ in zip(COMBS['mixed5']['f'], COMBS['mixed5']['baud'],
+                                                                                          COMBS['mixed5']['slot'])])
+            pth, si, rec = c.propagate_recorded(path, req, equipment)
+            where0 = f'designed network {case["net"]}, path {path[0].uid}->{path[-1].uid}'
+            ok = True
+            for st in rec.steps:
+                el = st['el']
+                if not isinstance(el, Fiber):
+                    continue
+                transitions += 1
+                pre, post = st['pre'], st['post']
+                L = el.params.length
+                d_lat = post['lat'] - pre['lat']
+                if not np.allclose(d_lat, L * N1 / C0, rtol=1e-12):
+                    viol.append(dict(fingerprint='latency-of-designed-span', what=f'{where0}: {el.uid} ({L / 1e3:.3f} km) adds '
+                                     f'{d_lat[0]!r} s, L n / c = {L * N1 / C0!r}'))
+                    ok = False
+                if isinstance(el, RamanFiber):
+                    continue
+                lc = np.atleast_1d(el.params.loss_coef)      # dB/m, scalar here
+                lumped_db = sum(x['loss'] for x in (getattr(el.params, 'lumped_losses', None) or []))
+                budget = el.params.att_in + el.params.con_in + L * float(lc[0]) + lumped_db + el.params.con_out
+                got = 10 * np.log10(pre['pch'] / post['pch'])
+                if not np.allclose(got, budget, rtol=0, atol=1e-9):
+                    viol.append(dict(fingerprint='loss-budget:designed-network', what=f'{where0}: {el.uid} attenuates by '
+                                     f'{got.tolist()} dB, its budget (pad {el.params.att_in} + connectors + {L / 1e3:.3f} km x '
+                                     f'{float(lc[0]) * 1e3} dB/km) is {budget:.6f} dB'))
+                    ok = False
+            first, last = rec.steps[0]['pre'], rec.steps[-1]['post']
+            links = {st['uid'].split(':')[0] for st in rec.steps if isinstance(st['el'], Fiber)}
+            exp_lat = sum(in_len.get(k, 0.0) for k in links) * N1 / C0
+            if not np.allclose(last['lat'] - first['lat'], exp_lat, rtol=1e-9):
+                viol.append(dict(fingerprint='path-latency:designed-network', what=f'{where0}: latency {(last["lat"] - first["lat"])[0]!r} '
+                                 f's, fibres of the input document give {exp_lat!r} s'))
+                ok = False
+            traces += ok
+    finally:
+        c.set_sim_params({})
+    for x in viol:
+        x['case'] = case
+    return {'violations': viol[:6], 'transitions': transitions, 'traces': traces, 'nontrivial': True,
+            'tags': {'designed:' + case['net']: 1}, 'sample': case}
+
+
 # ---- (c) ------------------------------------------------------------------------------------------------------------
 C_SPACE = {
     'method': ['perturbative2', 'perturbative1', 'perturbative4', 'numerical'],
@@ -503,7 +586,7 @@ def run_raman(case):
 
 
 def run_case(case):
-    return {'single': run_single, 'path': run_path, 'raman': run_raman, 'mbpath': run_mbpath}[case['kind']](case)
+    return {'single': run_single, 'path': run_path, 'raman': run_raman, 'mbpath': run_mbpath, 'designed': run_designed}[case['kind']](case)
 
 
 def main(rep, tier, seed):
@@ -519,7 +602,9 @@ def main(rep, tier, seed):
     for net_ in ('CL', 'CLS', 'mixed_C_then_CL', 'CLS_then_CL', 'wide_then_CL', 'narrowC'):
         for decl in ('descending', 'ascending'):
             cases.append({'kind': 'mbpath', 'net': net_, 'declared': decl})
-    n_b2 = 12
+    for net_ in DESIGNED:
+        cases.append({'kind': 'designed', 'net': net_})
+    n_b2 = 12 + len(DESIGNED)
     sp = engine.Space(C_SPACE, constraint=lambda x: not (x['step'] == 100.0 and x['length'] == 80.0 and x['method'] == 'numerical'
                                                         and x['pumps'] == 'co_cnt'))
     d = 2 if tier == 'quick' else 4
@@ -529,7 +614,7 @@ def main(rep, tier, seed):
     results, stats = engine.run_pool('checks.c05', cases, horizon=600)
     rep.absorb(results)
     rep.cov['bound'] = (f'(a) full product over {list(A_SPACE)} = {n_a} single fibres; (b) {len(SPAN_SETS)} span sets x 2 amplifier '
-                        f'sequences, every order of each span list; (b2) 6 multi-band networks x 2 declaration orders of the band amplifiers x every path; (c) Raman settings within {d} deviations over {list(C_SPACE)} '
+                        f'sequences, every order of each span list; (b2) 6 multi-band networks x 2 declaration orders of the band amplifiers x every path; (b3) 2 auto-designed networks (split fibres, Raman span after an automatic amplifier) x every path; (c) Raman settings within {d} deviations over {list(C_SPACE)} '
                         f'= {n_c} configurations')
     rep.cov['space_size'] = len(cases)
     rep.cov['exhaustive'] = not stats['budget_hit'] and len(results) == len(cases)
